@@ -265,7 +265,7 @@ class RaggedArray(IndexableArray, np.lib.mixins.NDArrayOperatorsMixin):
                 first_last_empty_row = np.searchsorted(self._shape.starts, self._shape.starts[-1], side='left')
                 result = ufunc.reduceat(self.ravel(), self._shape.starts[:first_last_empty_row])
                 # ufuncs without identity (maximum, minimum) have no value for empty rows: pad with 0
-                pad_value = 0 if ufunc.identity is None else ufunc.identity
+                pad_value = 0 if ufunc.identity is None else np.array(ufunc.identity).astype(result.dtype)
                 result = np.pad(result, (0, len(self._shape.starts)-first_last_empty_row), constant_values=pad_value)
             else:
                 result = ufunc.reduceat(self.ravel(), self._shape.starts)
@@ -273,7 +273,8 @@ class RaggedArray(IndexableArray, np.lib.mixins.NDArrayOperatorsMixin):
         # hack to fix problem that reduceat does not give identity when index i == index i+1 (empty rows)
         # not necessary when ufunc does not have identity
         if ufunc.identity is not None:
-            result[ra._shape.lengths == 0] = ufunc.identity
+            # the identity in the result's own type (-1, the identity of bitwise_and, is all ones for unsigned data)
+            result[ra._shape.lengths == 0] = np.array(ufunc.identity).astype(result.dtype)
 
         return result
 
